@@ -192,7 +192,7 @@ def check_ensemble(case, ctx):
                 for k in keys:
                     twins[k].update(X=sel(k, present(op["X"], container, ncols)), y_true=yt, y_pred=yp)
         except ValueError as e:
-            if "Standard deviation is 0" in str(e) or "bandwidth" in str(e):
+            if any(cat.is_domain_end(type(twins[k_]).__name__, twins[k_], e) for k_ in keys):
                 ctx.label("truncated-domain")
                 break
             raise Violation("unexpected-exception", f"stand-alone member raised {e!r}", case=trim(i), **sig)
